@@ -265,12 +265,39 @@ UniLaw == \A i \in 1..Len(UniSeq) :
        /\ (c # "for" => o.log = applied) /\ (c = "for" => Len(o.log) = Len(applied) + Len(xs)))
   \/ (PrintT(<<"UNILAW", UniSeq[i], o>>) /\ FALSE)
 
+\* ---------------------------------------------------------------- callbacks that FAIL on one element
+\* pz(x) = 8 / x > 2 (fails on 0), fz(x) = 8 / x, gz(a, x) = a + 8 / x; log 600 + x before the division.  The error of a
+\* callback is the error of the whole operator: nothing after the failing element is pulled or applied.
+FnPZ == FnDecl("pz", <<P("x", WInt)>>, WBool, <<LogPlus(600, V("x")), Ret(Bin(">", Bin("/", I(8), V("x")), I(2)))>>)
+FnFZ == FnDecl("fz", <<P("x", WInt)>>, WInt, <<LogPlus(600, V("x")), Ret(Bin("/", I(8), V("x")))>>)
+FnGZ == FnDecl("gz", <<P("a", WInt), P("x", WInt)>>, WInt, <<LogPlus(600, V("x")), Ret(Bin("+", V("a"), Bin("/", I(8), V("x"))))>>)
+ErrCons == {"part", "filter", "map", "reduce", "for-map", "map-sum"}
+ErrProg(xs, c) ==
+  <<FnPZ, FnFZ, FnGZ, Set("it", IterE(Hide(WArr(WInt), ArrE([i \in 1..Len(xs) |-> I(xs[i])]))))>> \o
+  (CASE c = "part" -> <<PartE(V("it"), V("pz"))>>
+     [] c = "filter" -> <<CollectE(FilterE(V("it"), V("pz")))>>
+     [] c = "map" -> <<CollectE(MapE(V("it"), V("fz")))>>
+     [] c = "reduce" -> <<ReduceE(V("it"), I(0), V("gz"))>>
+     [] c = "for-map" -> <<For("e", MapE(V("it"), V("fz")), Block(<<Mark(300)>>)), I(0)>>
+     [] c = "map-sum" -> <<RedE("$+", "int", MapE(V("it"), V("fz")))>>)
+ErrSeq == SetToSeq({<<xs, c>> : xs \in {<<4, 2, 0, 5>>, <<0, 1>>, <<1, 2, 4>>, <<2, 0>>}, c \in ErrCons})
+ErrOut(i) == Outcome(Run(ErrProg(ErrSeq[i][1], ErrSeq[i][2]), Fuel))
+FirstZero(xs) == IF \E j \in 1..Len(xs) : xs[j] = 0 THEN CHOOSE j \in 1..Len(xs) : xs[j] = 0 /\ \A q \in 1..(j - 1) : xs[q] # 0 ELSE 0
+ErrLaw == \A i \in 1..Len(ErrSeq) :
+  LET xs == ErrSeq[i][1]  z == FirstZero(xs)  o == ErrOut(i) IN
+  \/ (z = 0 /\ o.status = "value")
+  \/ (z > 0 /\ o.status = "error" /\ o.v = "ZeroDivision"
+       /\ SelectSeq(o.log, LAMBDA m : m >= 600) = [j \in 1..z |-> 600 + xs[j]])
+  \/ (PrintT(<<"ERRLAW", ErrSeq[i], o>>) /\ FALSE)
+
 Emit ==
   /\ TLCGet("stats").distinct > 0
-  /\ UniLaw
+  /\ UniLaw /\ ErrLaw
   /\ ndJsonSerialize(IOEnv.VERIF_OUT \o "/c11_cases.ndjson",
         [i \in 1..N |-> [id |-> "c11-" \o ToString(i), suite |-> "c11", prog |-> Prog(CaseSeq[i]), exp |-> Out(i)]]
         \o [i \in 1..Len(UniSeq) |-> [id |-> "c11-union-iter-" \o ToString(i), suite |-> "c11",
-                                      prog |-> UniProg(UniSeq[i][1], UniSeq[i][2], UniSeq[i][3]), exp |-> UniOut(i)]])
+                                      prog |-> UniProg(UniSeq[i][1], UniSeq[i][2], UniSeq[i][3]), exp |-> UniOut(i)]]
+        \o [i \in 1..Len(ErrSeq) |-> [id |-> "c11-failing-callback-" \o ToString(i), suite |-> "c11",
+                                      prog |-> ErrProg(ErrSeq[i][1], ErrSeq[i][2]), exp |-> ErrOut(i)]])
   /\ PrintT(<<"CASES", N, Len(CaseSeq0)>>)
 =============================================================================
